@@ -9,10 +9,11 @@ class World:
     """Installs the cooperative lock, the scheduler's sleep and the line
     tracer for one harness run (both modes)."""
 
-    def __init__(self, cx, max_preempt, free_choices=True):
+    def __init__(self, cx, max_preempt, free_choices=True, trace_parser=False):
         self.cx = cx
         self.max_preempt = max_preempt
         self.free_choices = free_choices
+        self.trace_parser = trace_parser
 
     def __enter__(self):
         import mido.backends._parser_queue as pq
@@ -24,6 +25,8 @@ class World:
         # yield points: every line of ports.py, _parser_queue.py and of the device double below;
         # calls into the parser/tokenizer/message code run atomically
         traced = {ports.__file__, pq.__file__, __file__}
+        if self.trace_parser:
+            traced |= {mido.parser.__file__, mido.tokenizer.__file__}
         self.s = sc.Sched(self.cx, traced, self.max_preempt, free_choices=self.free_choices)
         ports.threading = sc.FakeThreading
         ports.sleep = self.s.sleep
@@ -184,7 +187,7 @@ def parser_queue(cx, nput, max_preempt):
     messages and a polling consumer."""
     import mido
     from mido.backends._parser_queue import ParserQueue
-    with World(cx, max_preempt) as S:
+    with World(cx, max_preempt, trace_parser=True) as S:      # yield points inside Parser/Tokenizer too
         q = ParserQueue()
         msgs = [sym_note(cx, mido, 'p%d_' % i, i) for i in range(nput)]
         got = []
@@ -225,7 +228,7 @@ BOUNDS = {
              '_parser_queue.py and the device double; calls into parser/tokenizer/message code are atomic) of programs with 1-2 senders x 1-2 messages and 1-2 receivers using '
              'receive / poll / iter_pending, on a lock-protected byte-wise device port, EchoPort, the IOPort wrapper over the '
              'device port and a MultiPort over two EchoPorts; message contents (note, velocity) symbolic; the sender mutates its '
-             'message after send() returned; ParserQueue with 2 concurrent put_bytes and a poller',
+             'message after send() returned; ParserQueue with 2 concurrent put_bytes and a poller (here every line of parser.py and tokenizer.py is a yield point too)',
     'thorough': '<=2 preemptions for all programs (<=3 for the two smallest); 3 senders; 2 messages per sender with 2 receivers',
 }
 OUTSIDE = 'preemption INSIDE a source line / between bytecodes; more than 3 preemptions; more than 4 threads; real OS scheduling; ' \
